@@ -530,3 +530,45 @@ def iterfilldown(h):
             ctx.oblige('iterfilldown: the header, then the first data row unchanged, both once; nothing after the last row',
                        z3.And(pre.len == 2, _t(row_eq(out_row(pre, 0), src_row(S, 0))), _t(row_eq(out_row(pre, 1), src_row(S, 1))), res.out.len == 0))
     h.explore(body)
+
+
+# ------------------------------------------------------------------------------------------------ annex
+@vc('C12.iterannex', functions=[B + 'iterannex'], props=['C12', 'C03', 'C20'],
+    assumptions=['two tables (the loop body is uniform in their number); T2: zip_longest runs max(len) steps, an exhausted table reads as None',
+                 'stateless-body rule (engine meta-theorem)'])
+def iterannex(h):
+    """annex(a, b): step j joins data row j of a and data row j of b side by side, each cut / padded with `missing` to the width of
+    its own header; a table that has run out contributes a full width of `missing`; max(len) rows; header = both headers."""
+    def body(ctx):
+        def part(o, off, S, k, width):
+            """o[off : off + width] is row k of S squared up to `width` (all missing when S has run out)"""
+            q = smt.fresh_int('q')
+            row = src_row(S, k)
+            have = k < S.n
+            return z3.ForAll([q], z3.Implies(z3.And(0 <= q, q < width),
+                                             z3.Select(o.arr, off + q) == z3.If(z3.And(have, q < row.len), z3.Select(row.arr, q), missing.t)))
+
+        def delta(ls, x, dout):
+            k = ls.k.t
+            wa, wb = src_row(A, 0).len, src_row(Bt, 0).len
+            o = out_row(dout, 0)
+            ctx.oblige('iterannex: one output row per step: row j of each table, squared up to its own header width (all `missing` once it has run out), side by side',
+                       z3.And(dout.len == 1, o.len == wa + wb, part(o, 0, A, k, wa), part(o, wa, Bt, k, wb)))
+        it = h.interp(ctx, loops={(B + 'iterannex', 1): LoopSpec(delta=delta, label='rows side by side')})
+        it.check_pulls = False
+        A, Bt = sym_table(ctx, 'A', nmin=1), sym_table(ctx, 'B', nmin=1)
+        rows_are_sequences(ctx, A); rows_are_sequences(ctx, Bt)
+        missing = sym_cell('missing')
+        res = run_generator(it, closure_of(it, B + 'iterannex'), [PyList([A, Bt], 'list'), missing])
+        if res.exc is not None:
+            ctx.oblige('iterannex: never raises', z3.BoolVal(False), res.exc.origin or '')
+            return
+        if getattr(ctx, 'after_loop', None):
+            pre = ctx.pre_loop_out
+            o = out_row(pre, 0)
+            ha, hb = src_row(A, 0), src_row(Bt, 0)
+            q = smt.fresh_int('q')
+            ctx.oblige('iterannex: header = the two headers side by side, once; nothing after the last row',
+                       z3.And(pre.len == 1, o.len == ha.len + hb.len, res.out.len == 0,
+                              z3.ForAll([q], z3.Implies(z3.And(0 <= q, q < o.len), z3.Select(o.arr, q) == z3.If(q < ha.len, z3.Select(ha.arr, q), z3.Select(hb.arr, q - ha.len))))))
+    h.explore(body)
